@@ -40,7 +40,7 @@ func (c05) Runs(tier string) int {
 }
 func (c05) New() interface{} { return &c05Case{} }
 func (c05) Rule() string {
-	return "seeded headers (0..4 references, optional @HD/@RG/@CO) and 0..40 records (names 1..254 bytes, all aux types incl. B arrays of every subtype, odd/even/zero-length sequences over the 16 codes, absent/present qualities, 0..65535 CIGAR ops, record sizes below/at/above the 4 KiB inline buffer and above one BGZF block) written with bam.Writer (level, wc) and read with bam.Reader (rd, Omit mode) under tape-chosen schedules, short reads and disk delays. Oracles: field-by-field equality with references by identity, io.EOF at the end, the bytes under the BGZF layer equal an independent BAM encoder's output except the bin field, Omit modes. non-trivial: >=1 record spans a BGZF block boundary or exceeds 4 KiB, wc>1 or rd>1, >=1 preemptive switch; distinct = (case, schedule signature)"
+	return "seeded headers (0..4 references, a third of them with further @SQ tags of the specification: M5, UR, AS, SP, DS, AN, TP; optional @HD/@RG/@CO, comments with tabs; header text compared with the tags of a line in canonical order) and 0..40 records (names 1..254 bytes, all aux types incl. B arrays of every subtype, odd/even/zero-length sequences over the 16 codes, absent/present qualities, 0..65535 CIGAR ops, record sizes below/at/above the 4 KiB inline buffer and above one BGZF block) written with bam.Writer (level, wc) and read with bam.Reader (rd, Omit mode) under tape-chosen schedules, short reads and disk delays. Oracles: field-by-field equality with references by identity, io.EOF at the end, the bytes under the BGZF layer equal an independent BAM encoder's output except the bin field, Omit modes. non-trivial: >=1 record spans a BGZF block boundary or exceeds 4 KiB, wc>1 or rd>1, >=1 preemptive switch; distinct = (case, schedule signature)"
 }
 
 func (c05) Gen(t *Tape, tier string, run int) interface{} {
